@@ -51,12 +51,24 @@ func runPmOps(ops []string) []string {
 				out[i] = hx(rep)
 			}
 		case "reg":
-			ms := pm.GetMappings()
-			parts := make([]string, len(ms))
-			for k, m := range ms {
-				parts[k] = fmt.Sprintf("%d:%d:%d:%d", m.Program, m.Version, m.Protocol, m.Port)
+			render := func() string {
+				ms := pm.GetMappings()
+				parts := make([]string, len(ms))
+				for k, m := range ms {
+					parts[k] = fmt.Sprintf("%d:%d:%d:%d", m.Program, m.Version, m.Protocol, m.Port)
+				}
+				return strings.Join(parts, ",")
 			}
-			out[i] = strings.Join(parts, ",")
+			out[i] = render()
+			// the list GetMappings returns is the caller's (DUMP encodes it after the lock is released):
+			// scribbling over it must not reach the registry
+			ms := pm.GetMappings()
+			for k := range ms {
+				ms[k].Port, ms[k].Program = 7, 7
+			}
+			if again := render(); again != out[i] {
+				out[i] = "aliased: {" + out[i] + "} became {" + again + "}"
+			}
 		default:
 			out[i] = "bad-op"
 		}
@@ -87,6 +99,10 @@ func pmOracle(r *Result, ops, impl []string) {
 		return strings.Join(ks, ",")
 	}
 	for i, op := range ops {
+		if strings.HasPrefix(impl[i], "aliased:") {
+			r.violate(Violation{Class: "C27/registry-aliased", What: "GetMappings handed out the registry's own storage (a DUMP encodes it after the lock is released; a concurrent UNSET shifts it): " + impl[i], Ops: pre(i)})
+			continue
+		}
 		f := strings.Fields(op)
 		switch f[1] {
 		case "reset":
